@@ -156,3 +156,13 @@ CASES += [
     {"name": "the two mask loops merged with an ellipsis in front of the state indices", "kind": "twin", "edits": [
         (_SEC, _SEG, '        N = self.data.shape[-1]\n        for ii in range(N):\n            for jj in range(N):\n                for kk in range(N):\n                    for ll in range(N):\n                        if not (((ii == jj) and (kk == ll))\n                            or ((ii == kk) and (jj == ll))) :\n                                self.data[...,ii,jj,kk,ll] = 0\n', 1)]},
 ]
+
+_NEF = "quantarhei/qm/liouvillespace/nefoerstertensor.py"
+_RRL = ("    for a in range(Na):\n        for b in range(Na):\n            for c in range(Na):\n"
+        "                RR[:,a,b] -= JJ[a,c]*JJ[c,b]*fKK[:,c,c,b,a] \n")
+CASES += [
+    {"name": "operator part of the NE Foerster tensor as an einsum with the last two indices exchanged (seeded change of round 8)", "kind": "mutant", "rule": "C01-J", "edits": [
+        (_NEF, _RRL, "    RR -= numpy.einsum(\"ac,cb,tccab->tab\", JJ, JJ, fKK)\n", 1)]},
+    {"name": "operator part of the NE Foerster tensor as the correct einsum", "kind": "twin", "edits": [
+        (_NEF, _RRL, "    RR -= numpy.einsum(\"ac,cb,tccba->tab\", JJ, JJ, fKK)\n", 1)]},
+]
